@@ -63,6 +63,13 @@ SITES = {
     "attrs_sq": ("<a x='s' tal:attributes=\"x {v}\"/>", "<a x='", "'/>",
                  "sq"),
     "attrs_new": ('<a tal:attributes="x {v}"/>', '<a x="', '"/>', "dq"),
+    # static attributes written without quotes / without a value: a computed
+    # value stands in quotes
+    "attrs_unquoted": ('<a x=s tal:attributes="x {v}">t</a>', '<a x="',
+                       '">t</a>', "dq"),
+    "attrs_valueless": ('<a x tal:attributes="x {v}">t</a>', '<a x="',
+                        '">t</a>', "dq"),
+    "interp_unquoted": ('<a x=${{{v}}}>t</a>', '<a x="', '">t</a>', "dq"),
     "attrs_string": ('<a tal:attributes="x string:p${{{v}}}"/>', '<a x="p',
                      '"/>', "dq"),
     "attrs_dict": ('<a tal:attributes="dict(x={v})"/>', '<a x="', '"/>',
